@@ -178,7 +178,7 @@ pub fn check_step(ctx: &mut Ctx, s: &Step) -> Result<(), Violation> {
                 }
             }
         }
-        let nontrivial = cores.len() > 1 || m.promo.is_some() || is_ep || (castle && !suffix.is_empty());
+        let nontrivial = (cores.len() > 1 && !matches!(p.at(m.from), Some((_, Kind::P)))) || m.promo.is_some() || is_ep || (castle && !suffix.is_empty());
         if is_ep {
             ctx.class("spelling:en-passant");
         }
@@ -387,7 +387,7 @@ pub fn run(cfg: &Cfg) -> i32 {
     engine::finish(
         report,
         EvidenceSpec {
-            rule: "cases = (position, text) pairs. For every legal move of every position on golden and generated histories the reference SAN writer emits all admissible spellings (castling; piece letter with the minimal and every fuller correct disambiguation; canonical pawn forms; 'x' iff capture incl. en passant; promotion letter; each with and without the correct '+'/'#'; en passant additionally with ' e.p.') which must parse to exactly that move; under-specified spellings of moves with rivals, strict-grammar negatives (no or several fitting moves), long-form pawn spellings, mutated spellings, regex-shaped and arbitrary Unicode strings are checked with the universal oracle (no panic; a returned move is legal and fits the text; ambiguous and non-denoting strict texts are rejected). evaluations = texts parsed. Non-trivial = spelling with disambiguation, promotion, en passant or castling with check, or a strict text fitting >= 2 moves; distinct = (position, text) fingerprints.".into(),
+            rule: "cases = (position, text) pairs. For every legal move of every position on golden and generated histories the reference SAN writer emits all admissible spellings (castling; piece letter with the minimal and every fuller correct disambiguation; pawn moves in canonical form and with the full source square (e4 / e2e4, exd5 / e4xd5); 'x' iff capture incl. en passant; promotion letter; each with and without the correct '+'/'#'; en passant additionally with ' e.p.') which must parse to exactly that move; under-specified spellings of moves with rivals, strict-grammar negatives (no or several fitting moves), long-form pawn spellings, mutated spellings, regex-shaped and arbitrary Unicode strings are checked with the universal oracle (no panic; a returned move is legal and fits the text; ambiguous and non-denoting strict texts are rejected). evaluations = texts parsed. Non-trivial = spelling with disambiguation, promotion, en passant or castling with check, or a strict text fitting >= 2 moves; distinct = (position, text) fingerprints.".into(),
             assumptions: vec!["reference SAN writer / strict grammar as in FIDE Appendix C and the library's own documentation comment".into()],
             trusted_base: vec!["harness/src/refmodel.rs".into(), "harness/src/props/c12.rs parse_strict/fits".into(), "proptest 1.11".into()],
             exhaustive: None,
